@@ -15,7 +15,7 @@ from . import sast as A
 INT, BOOL, STR, NULL = "int", "bool", "str", "null"
 
 STR_POOL = ["", "a", "abc", "hello world", "é", "x✓y", "😀", "a\nb", "line one\nline two\n\nlast é", "xy\nz\n", "\n\n", "tab\there", "q\"uote", "do$llar",
-            "back\\slash", "{brace}", "#hash", "semi;colon", "  spaced  ", "A", "Z9_"]
+            "back\\slash", "{brace}", "#hash", "semi;colon", "  spaced  ", "A", "Z9_", "cr\r\nlf", "lone\rcr é\r\n"]
 KEY_POOL = ["a", "b", "c", "k", "key", "A", "x y", "é", "", "z9", "_p"]
 IDENT_KEYS = {"a", "b", "c", "k", "key", "A", "z9", "_p"}
 
